@@ -221,6 +221,7 @@ def check_big(v):
     from bionumpy.datatypes import Interval
     recs = v["recs"]
     crlf = bool(v.get("crlf"))
+    finalnl = bool(v.get("finalnl", True))
     nl = "\r\n" if crlf else "\n"
     d = os.path.join(v["_dir"], "c17_big_%d" % os.getpid())
     os.makedirs(d, exist_ok=True)
@@ -240,7 +241,7 @@ def check_big(v):
             unit = "".join(base(i, p) for p in range(len(LETTERS)))
             seq = (unit * (r["L"] // len(LETTERS) + 1))[:r["L"]]
             body = nl.join(seq[p:p + r["W"]] for p in range(0, r["L"], r["W"]))
-            f.write(">" + header + nl + body + nl)
+            f.write(">" + header + nl + body + (nl if (finalnl or i + 1 < len(recs)) else ""))
     bad, n = [], 0
     vec = {k: v[k] for k in v if not k.startswith("_")}
     if os.path.getsize(path) != v["flen"]:
@@ -254,7 +255,7 @@ def check_big(v):
     o = outcome(built)
     n += 1
     if o != ("ok", want):
-        bad.append({"what": "created index of a multi-chunk FASTA differs from the file layout", "tags": {"op": "create_index", "big": True, "nrec": len(recs), "finalnl": True, "crlf": crlf},
+        bad.append({"what": "created index of a multi-chunk FASTA differs from the file layout", "tags": {"op": "create_index", "big": True, "nrec": len(recs), "finalnl": finalnl, "crlf": crlf},
                     "vector": vec, "expected": want, "observed": o})
     else:
         def fetches():
@@ -322,6 +323,8 @@ def run(ctx):
     ctx.absorb([check_big(bv)])
     big2 = ctx.tlc("MC_C17big", tag="MC_C17big_six", spec="BigSpec2", constants={"MaxRecs": 1, "MaxL": 1, "MaxW": 1, "FinalNL": True, "BlankEnd": False, "MaxFetch": 1, "CRLF": False}, invariants=["EmitBig"])
     ctx.absorb([check_big(dict(big2.vectors[0], _dir=ctx.work))])
+    big3 = ctx.tlc("MC_C17big", tag="MC_C17big_two_reads", spec="BigSpec3", constants={"MaxRecs": 1, "MaxL": 1, "MaxW": 1, "FinalNL": False, "BlankEnd": False, "MaxFetch": 1, "CRLF": False}, invariants=["EmitBig", "TwoFullReads"])
+    ctx.absorb([check_big(dict(big3.vectors[0], _dir=ctx.work))])
     bigc = ctx.tlc("MC_C17big", tag="MC_C17big_crlf", spec="BigSpec", constants={"MaxRecs": 1, "MaxL": 1, "MaxW": 1, "FinalNL": True, "BlankEnd": False, "MaxFetch": 1, "CRLF": True}, invariants=["EmitBig"])
     ctx.absorb([check_big(dict(bigc.vectors[0], _dir=ctx.work))])
     ctx.exhaustive = True
